@@ -24,6 +24,12 @@ Proof.
   apply (run_node_feasible_score courses parts _ _ (v_instr_rng _ _ V) (valid_one _ _ V) (valid_pairs _ _ V)).
 Qed.
 
+Theorem full_any_score nd r : full nd = Val r ->
+  match r with Feasible _ s | Infeasible _ s => exists a, s = score_of courses parts a | NoSolution => True end.
+Proof.
+  apply (run_node_any_score courses parts _ _ (v_instr_rng _ _ V) (valid_one _ _ V) (valid_pairs _ _ V)).
+Qed.
+
 Lemma full_feasible_gate nd a s : full nd = Val (Feasible a s) -> the_gate courses esize shrinkf rooms nd a = Val None.
 Proof.
   intros H. destruct (run_node_cases courses parts _ _ nd _ H) as [Hn|NR]; [discriminate|].
